@@ -911,7 +911,14 @@ fn build_case(rng: &mut Rng, paths: &[Vec<u8>], edges: &[Vec<Target>], styles: &
         let mut lines: Vec<Vec<u8>> = Vec::new();
         for t in &edges[i] {
             if rng.chance(1, 6) {
-                lines.push(rng.pick(&[&b"# comment"[..], b"", b"#", b"# /R/a"]).to_vec());
+                let l = rng.pick(&[&b"# comment"[..], b"", b"#", b"# /R/a", b"#c", b"#c"]).to_vec();
+                if l == b"#c" {
+                    // a directory that the comment line would name if it were taken as an entry
+                    let mut q = p.clone();
+                    q.extend_from_slice(b"/#c");
+                    extra.push((q, b"d".to_vec()));
+                }
+                lines.push(l);
             }
             let style = *rng.pick(styles);
             match t {
@@ -967,6 +974,7 @@ fn boundary() -> Vec<Case> {
         fixed_case("/R/a/objects", &[("/R/a/objects", "d")]),
         fixed_case("/R/a/objects", &[("/R/a/objects", "a")]),
         fixed_case("/R/a/objects", &[("/R/a/objects", "a# nothing\n\n")]),
+        fixed_case("/R/a/objects", &[("/R/a/objects", "a#c\n# /R/b\n"), ("/R/a/objects/#c", "d"), ("/R/b", "d")]),
         // one absolute link, one relative link
         fixed_case("/R/a/objects", &[("/R/a/objects", "a/R/b/objects\n"), ("/R/b/objects", "d")]),
         fixed_case("/R/a/objects", &[("/R/a/objects", "a../../b/objects\n"), ("/R/b/objects", "d")]),
